@@ -97,6 +97,8 @@ def catalogue(kind):
     F.append(("client-sends-delProperty", '<delProperty device="DEV0" name="TGT"/>', []))
     # device-kind messages about the WHOLE device / every device from a client: other clients' settings and views of the
     # router must not change either (the listener keeps getting what it asked for)
+    F.append(("client-sends-delProperty-unknown-property", '<delProperty device="DEV0" name="NOPE"/>', []))
+    F.append(("client-sends-delProperty-unknown-device", '<delProperty device="NOPE" name="TGT"/>', []))
     F.append(("client-sends-delProperty-whole-device", '<delProperty device="DEV0"/>', []))
     F.append(("client-sends-delProperty-other-device", '<delProperty device="DEV1"/>', []))
     F.append(("client-sends-message-no-device", '<message message="hi"/>', []))
@@ -144,6 +146,10 @@ class Session:
         self.transport = transport
         self.specs = DP.deployment(variant=variant, ndev=2)
         self.w = e2e.World(self.specs)
+        # the second driver snoops on the first one (an in-process client that mirrors DEV0 and is registered with the
+        # router like any other client): whatever a connection sends reaches it too
+        self.w.devices[1].snoop_device("DEV0")
+        self.w.settle()
         self.escaped = []
         w = self.w
         if transport == "tcp":
